@@ -163,10 +163,6 @@ Definition idtab_ok (T : idtab) : bool :=
 
 Definition is_word (T : idtab) (s : str) : bool := existsb (leqb s) (it_lex_keywords T ++ lit_words).
 
-(* the remaining known class of write_ident_part: the wildcard `*` is left bare (valid_prql_ident accepts it) although a
-   bare `*` is not an identifier token *)
-Definition write_known (T : idtab) (s : str) : bool := is_star s.
-
 Definition alnum_ascii : list (N * N) := [(48, 57); (65, 90); (97, 122)].
 
 Section Idents.
@@ -327,12 +323,13 @@ Section Idents.
     unfold covers in Hc. rewrite forallb_forall in Hc. rewrite (Hc s Hin) in Hn. discriminate.
   Qed.
 
-  Theorem write_ident_lexes s rest : contains c_backtick s = false -> write_known T s = false -> delim rest ->
+  (* every name (the wildcard `*` included: valid_prql_ident no longer accepts it, commit 328740d) *)
+  Theorem write_ident_lexes s rest : contains c_backtick s = false -> delim rest ->
     lexw (write_ident_part T s ++ rest) = Some (WIdent s, rest).
   Proof.
-    intros Hb Hk Hd. unfold write_ident_part, write_known in *.
+    intros Hb Hd. unfold write_ident_part in *.
     destruct (valid_prql_ident T s && negb (existsb (leqb s) (it_fmt_keywords T))) eqn:B; [|apply lex_bt; exact Hb].
-    apply andb_true_iff in B as [Hv Hkw]. apply negb_true_iff in Hkw. unfold valid_prql_ident in Hv. rewrite Hk in Hv. cbn [orb] in Hv.
+    apply andb_true_iff in B as [Hv Hkw]. apply negb_true_iff in Hkw. unfold valid_prql_ident in Hv.
     destruct s as [|c t]; [discriminate|]. apply andb_true_iff in Hv as [Hc Ht].
     pose proof TOK as TK. unfold idtab_ok in TK. repeat (apply andb_true_iff in TK as [TK ?]).
     apply (bare_lexes (it_fmt_start T) (it_fmt_rest T)); try assumption.
